@@ -556,6 +556,12 @@ def check(ctx):
     check_debug(ctx)
     check_authorize(ctx)
     check_stateless(ctx, 'C07.STATELESS')
+    # credentials that are neither a context nor a mutable mapping raise the
+    # documented InvalidContextObject before anything is written to them:
+    # otherwise the system_scope mirror fails with TypeError in every
+    # do_raise / exc mode (= C08.CREDS)
+    from . import c08
+    ctx.borrow('C07.SURFACE', c08.check_creds, only=['C08.CREDS'])
 
 
 def check_stateless(ctx, rule):
